@@ -278,3 +278,51 @@ fn step_insert_rehash_len0() {
 fn step_insert_rehash_len1() {
     insert_rehash(1)
 }
+
+/// `reserve_rehash` is verified separately (step_insert_rehash_*); here it is cut off so that
+/// the tombstone logic of `retain` itself is decided: the stub records the request only.
+static REHASH_REQUESTED: std::sync::atomic::AtomicBool = std::sync::atomic::AtomicBool::new(false);
+fn stub_reserve_rehash<T, S: linear_hashtbl::raw::Status, A: linear_hashtbl::VerifAllocator + Clone>(_t: &mut RawTable<T, S, A>, additional: usize) {
+    assert!(additional == 0, "C17: retain only ever asks for a shrinking rehash");
+    REHASH_REQUESTED.store(true, std::sync::atomic::Ordering::Relaxed);
+}
+
+/// retain with an arbitrary predicate (bit mask over the keys), shrink/rehash cut off:
+/// keeps exactly the accepted elements, calls `drop` exactly once for each rejected one,
+/// leaves every kept element reachable from its home slot (no FREE slot inside a probe chain).
+#[kani::proof]
+#[kani::unwind(18)]
+#[kani::stub(linear_hashtbl::raw::RawTable::reserve_rehash, stub_reserve_rehash)]
+fn step_retain_norehash() {
+    let (mut t, p, h) = any_table();
+    let keep: u8 = kani::any();
+    let dropped = std::cell::Cell::new(0u8);
+    let twice = std::cell::Cell::new(false);
+    t.retain(
+        |x| keep & (1 << (*x & 7)) != 0,
+        |x| {
+            let b = 1u8 << (x & 7);
+            if dropped.get() & b != 0 {
+                twice.set(true);
+            }
+            dropped.set(dropped.get() | b);
+        },
+    );
+    assert!(!twice.get(), "C17,C05: retain drops every rejected element exactly once");
+    let w = any_key();
+    let was = present(&p, w);
+    let acc = keep & (1 << w) != 0;
+    assert!((dropped.get() & (1 << w) != 0) == (was && !acc), "C17,C05: exactly the rejected elements are dropped");
+    // (in a native replay the stub is not in effect and the real rehash may have emptied the table)
+    if t.slots() == SLOTS {
+        let p2 = parts_of(&t);
+        assert!(inv(&p2, t.len(), t.verif_free(), &h), "C17: representation invariant preserved by retain (kept elements stay reachable, counters exact)");
+        assert!(present(&p2, w) == (was && acc), "C17: retain keeps exactly the elements accepted by the predicate");
+    }
+    let shrink = REHASH_REQUESTED.load(std::sync::atomic::Ordering::Relaxed);
+    assert!(!shrink || t.len() < SLOTS / 4, "C17: a shrinking rehash is only requested when fewer than a quarter of the slots stay occupied");
+    kani::cover!(shrink, "shrink requested");
+    kani::cover!(t.len() >= 2 && dropped.get() != 0, "some kept, some dropped");
+    kani::cover!(t.slots() == SLOTS && count(&parts_of(&t), |s| s == TOMB) < count(&p, |s| s == TOMB), "tombstones compacted");
+    std::mem::forget(t);
+}
